@@ -127,6 +127,25 @@ def targets(meth):
         ("lambda", "(lambda: r.c.%s())()" % meth),
         ("lambda", "(lambda q: q.%s())(r.c)" % meth),
         ("type-matcher", "Type.record.%s()" % meth),
+        # one call target per remaining ast expression kind that can stand left of '.%s()'
+        ("root:BoolOp", "(r.c or r.c).%s()" % meth),
+        ("root:BoolOp", "(r.s and r.c).%s()" % meth),
+        ("root:UnaryOp", "(not r.c).%s()" % meth),
+        ("root:Compare", "(r.n == 3).%s()" % meth),
+        ("root:IfExp", "(r.c if r.n else r.c).%s()" % meth),
+        ("root:List", "[r.c, 1].%s()" % meth),
+        ("root:Tuple", "(r.c, 1).%s()" % meth),
+        ("root:Dict", "{'k': r.c}.%s()" % meth),
+        ("root:Set", "{1, 2}.%s()" % meth),
+        ("root:ListComp", "[q for q in [r.c]].%s()" % meth),
+        ("root:GeneratorExp", "(q for q in [r.c]).%s()" % meth),
+        ("root:JoinedStr", "f'{r.s}'.%s()" % meth),
+        ("root:NamedExpr", "(q := r.c).%s()" % meth),
+        ("root:Starred-arg", "lower(*[r.c.%s()])" % meth),
+        ("root:kwargs-arg", "lower(**{'s': r.c.%s()})" % meth),
+        ("root:Slice", "r.sl[r.c.%s():]" % meth),
+        ("root:FormattedValue", "f'{r.c.%s()}' == 'x'" % meth),
+        ("root:decorated-name", "(lower)(r.c).%s()" % meth),
         ("attr-of-whitelisted-callable", "str.%s(r.s)" % meth),
         ("attr-of-whitelisted-callable", "repr.%s(r.c)" % meth),
         ("attr-of-whitelisted-callable", "lower.%s(r.s)" % meth),
